@@ -119,6 +119,10 @@ def run(ctx):
         for kind, text in atom_malformations(a, uni, rng):
             c = contexts[(i + len(kind)) % len(contexts)]
             items.append((c % text, "public" if i % 5 else "T1", "mal:" + kind, None, {}))
+    # a unit of the mixture notation without its number is not a quantity: "LI" is not a litre of iodine
+    for unit in ["kg", "mg", "ug", "ng", "g", "L", "mL", "uL", "nL", "cm", "mm", "um", "nm"]:
+        for body in ["I", "Fe", "H2O", "Co2O3@5", " Fe", "(H2O)2", "Fe // 2 g Ni"]:
+            items.append((unit + body, "public" if len(body) % 2 else "T1", "mal:unit-without-number", None, {}))
     # single valid atoms: every atom of the rotor pools once (thorough) so that "any element/isotope/ion" is exhaustive
     for kind in ("el", "iso", "ion", "alias", "isoion"):
         pool = uni[kind]
